@@ -13,13 +13,55 @@ Definition out_eqb {A} (eqb : A -> A -> bool) (a b : outcome A) : bool :=
   | _, _ => false
   end.
 
-(* boolean well-formedness of a generated hello (mirrors Proofs.ClientHello.wf_hello) *)
-Definition wf_sni_entry_b (e : sni_entry) : bool :=
-  (sn_type e <? 256) && (nlen (sn_name e) <? 65536).
+Definition is_nil {A} (l : list A) : bool := match l with [] => true | _ => false end.
+
+(* ---- the reference for the server_name part of a generated hello ----
+   Written on the generator's AST, independent of the parser: RFC 8446 4.2 (one extension
+   per type) and RFC 6066 3 (the list is not empty; a HostName is not empty and has no
+   trailing dot; at most one name per type), which is what a standard TLS server (crypto/tls)
+   enforces on this extension.  [sni_gen] = (entries, stray bytes that follow them inside the
+   list); mirrors Proofs.ClientHello.rfc_sni_list / rfc_exts. *)
+Definition sni_gen := (list sni_entry * str)%type.
+Definition enc_sni_gen (g : sni_gen) : str :=
+  let body := flat_map enc_sni_entry (fst g) ++ snd g in enc16 (nlen body) ++ body.
 Definition host_entries (l : list sni_entry) : list sni_entry :=
   filter (fun e => sn_type e =? 0) l.
-Definition sni_of_list (l : list sni_entry) : str :=
-  match host_entries l with e :: _ => sn_name e | [] => [] end.
+Definition ends_with_dot (s : str) : bool :=
+  match rev s with 46 :: _ => true | _ => false end.
+Definition rfc_list_b (g : sni_gen) : bool :=
+  is_nil (snd g) && negb (is_nil (fst g))
+  && forallb (fun e => negb (sn_type e =? 0)
+                       || (negb (is_nil (sn_name e)) && negb (ends_with_dot (sn_name e)))) (fst g)
+  && Nat.leb (length (host_entries (fst g))) 1.
+Definition rfc_ok (snis : list sni_gen) : bool :=
+  match snis with [] => true | [g] => rfc_list_b g | _ => false end.
+(* the name such a hello carries: the host_name of its only list, nothing otherwise *)
+Definition expected_name (snis : list sni_gen) : str :=
+  match snis with
+  | [g] => match host_entries (fst g) with e :: _ => sn_name e | [] => [] end
+  | _ => []
+  end.
+
+(* ---- known-finding regions, syntactic on the generated AST ----
+   1: more than one server_name extension (F-C10-1)
+   2: something follows the first host_name entry inside a list (F-C10-2)
+   3: a host_name ends with a dot (F-C10-3) *)
+Fixpoint after_first_host (l : list sni_entry) : option (list sni_entry) :=
+  match l with
+  | [] => None
+  | e :: r => if sn_type e =? 0 then Some r else after_first_host r
+  end.
+Definition follows_host (g : sni_gen) : bool :=
+  match after_first_host (fst g) with
+  | Some r => negb (is_nil r) || negb (is_nil (snd g))
+  | None => false
+  end.
+Definition region_of (snis : list sni_gen) : option N :=
+  if Nat.leb 2 (length snis) then Some 1
+  else if existsb follows_host snis then Some 2
+  else if existsb (fun g => existsb (fun e => (sn_type e =? 0) && ends_with_dot (sn_name e)) (fst g)) snis
+       then Some 3
+  else None.
 
 Inductive case :=
 (* clientHelloBufferSize(data): impl result (Err kinds 1-5 by message) *)
@@ -29,15 +71,31 @@ Inductive case :=
 | CRead (msg : str) (impl : outcome str) (tls : option str)
 (* the whole path on a connection's byte stream through the real SNIProxy.ServeTCP
    (peek 9 / size / read exactly that many / parse): impl = Ok host when Lookup was
-   called with that host, Err 0 when the connection was dropped before routing *)
-| CStream (stream : str) (impl : outcome str) (tls : option str)
-(* a hello generated as an AST and encoded by the harness's own Go encoder:
-   the Coq encoder must produce the same bytes (ties the spec-side encoder to an
-   independent one and, through [tls], to crypto/tls) *)
-| CHello (h : hello) (sni : option (list sni_entry)) (data : str)
-         (impl : outcome str) (tls : option str).
+   called with that host, Err 0 when the connection was dropped before routing;
+   [consumed] = Some n when the proxy had buffered n bytes before routing (the size of the
+   first write to the upstream, as counted by the target's RxCounter) *)
+| CStream (stream : str) (impl : outcome str) (consumed : option N) (tls : option str)
+(* a hello given as an AST (generated, or a real crypto/tls hello parsed by the harness) and
+   encoded by the harness's own Go encoder: the Coq encoder must produce the same bytes and
+   the AST must be well-formed (ties the spec-side encoder and the theorems' domain to an
+   independent encoder and, through [tls], to crypto/tls); [snis] = the content of its
+   server_name extensions in order *)
+| CHello (h : hello) (snis : list sni_gen) (data : str)
+         (impl : outcome str) (tls : option str)
+(* truncation: [full]/[fulln] = what ServeTCP did on [stream] (host routed on, bytes
+   buffered), [cut] = what it did on the first [k] bytes of [stream] *)
+| CTrunc (stream : str) (k : N) (full : outcome str) (fulln : option N) (cut : outcome str)
+(* a hello spread over two TLS records: never routed (the buffering clause of the property
+   forbids reading beyond the first record) *)
+| CFrag (stream : str) (impl : outcome str) (tls : option str).
 
-Definition pair_eqb (a b : N * str) : bool := (fst a =? fst b) && beq (snd a) (snd b).
+Definition route_model (stream : str) : outcome str * option N :=
+  match sni_route_name stream with
+  | Ok (_, []) => (Err 0, None)          (* "server_name missing": no Lookup *)
+  | Ok (n, name) => (Ok name, Some n)
+  | Err _ => (Err 0, None)
+  | Panic => (Panic, None)
+  end.
 
 Definition check_case (c : case) : N :=
   match c with
@@ -64,30 +122,61 @@ Definition check_case (c : case) : N :=
                   | Err _ => match tls with Some _ => false | None => true end
                   end in
       verdict same spec None (match m with Ok (_ :: _) => true | _ => false end)
-  | CStream stream impl tls =>
-      let m := match sni_route_name stream with
-               | Ok (_, []) => Err 0          (* "server_name missing": no Lookup *)
-               | Ok (_, name) => Ok name
-               | Err _ => Err 0
-               | Panic => Panic
-               end in
-      let same := out_eqb beq impl m in
+  | CStream stream impl consumed tls =>
+      let '(m, mc) := route_model stream in
+      let same := out_eqb beq impl m && opt_eqb N.eqb consumed mc in
       (* a standard TLS server fed the same stream saw name [t]: a non-empty [t] must be
-         what the proxy routes on; a crash is never acceptable *)
+         what the proxy routes on; what was buffered before routing lies within the first
+         record and within what the client sent; a crash is never acceptable *)
       let spec := match impl with
                   | Panic => false
                   | Ok n => match tls with Some t => beq n t | None => true end
+                            && match consumed, u16 stream 3 with
+                               | Some c, Ok rl => (c <=? rl + 5) && (c <=? nlen stream)
+                               | _, _ => false
+                               end
                   | Err _ => match tls with Some (_ :: _) => false | _ => true end
                   end in
       verdict same spec None (is_ok m)
-  | CHello h sni data impl tls =>
+  | CHello h snis data impl tls =>
       let m := read_server_name (enc_handshake h) in
-      let expected := match sni with Some l => sni_of_list l | None => [] end in
-      let same := beq (enc_handshake h) data && out_eqb beq impl m in
+      let sni_data := map ext_data (filter (fun e => ext_type e =? 0)
+                                           (match h_exts h with Some es => es | None => [] end)) in
+      (* the case is what it says: same bytes, a hello of the theorems' domain, [snis] is the
+         content of its server_name extensions *)
+      let tied := beq (enc_handshake h) data && wf_hello_b h
+                  && list_eqb beq sni_data (map enc_sni_gen snis) in
+      let ok := rfc_ok snis in
+      (* the reference itself against crypto/tls: what RFC 6066/8446 forbid, crypto/tls rejects *)
+      let ref_consistent := ok || match tls with None => true | Some _ => false end in
+      let same := tied && out_eqb beq impl m && ref_consistent in
+      (* well-formed: the name is the list's host_name (and what crypto/tls saw);
+         malformed server_name data: rejected, or at least not routed (empty name) *)
       let spec := match impl with
-                  | Ok n => beq n expected
-                            && match tls with Some t => beq n t | None => true end
-                  | _ => false
+                  | Panic => false
+                  | Ok n => if ok
+                            then beq n (expected_name snis)
+                                 && match tls with Some t => beq n t | None => true end
+                            else is_nil n
+                  | Err _ => negb ok
                   end in
-      verdict same spec None true
+      verdict same spec (region_of snis) true
+  | CTrunc stream k full fulln cut =>
+      let '(m, mc) := route_model stream in
+      let '(mcut, _) := route_model (firstn (N.to_nat k) stream) in
+      let same := out_eqb beq full m && opt_eqb N.eqb fulln mc && out_eqb beq cut mcut in
+      (* a strict prefix of what an accepted stream had consumed is rejected *)
+      let strict := match full, fulln with Ok _, Some n => k <? n | _, _ => false end in
+      let spec := match cut with
+                  | Panic => false
+                  | Ok _ => negb strict
+                  | Err _ => true
+                  end
+                  && negb (is_panic full) in
+      verdict same spec None strict
+  | CFrag stream impl tls =>
+      let '(m, _) := route_model stream in
+      let same := out_eqb beq impl m in
+      let spec := match impl with Err _ => true | _ => false end in
+      verdict same spec None (match tls with Some (_ :: _) => true | _ => false end)
   end.
